@@ -189,7 +189,7 @@ PROPS = {
                        "compression numerics — these are functions of run-time values",
     },
     "C18": {
-        "rules": [r_vkey.run_all, r_coord.run, r_macro.rule_seq_custom, r_buildall.run_for("C18"), r_idle.run_idle_counter, r_nametable.run, r_countdown.rule_nowrap, r_idle.run_only("Kanata")],
+        "rules": [r_vkey.run_all, r_coord.run, r_macro.rule_seq_custom, r_buildall.run_for("C18"), r_idle.run_idle_counter, r_nametable.run, r_countdown.rule_nowrap, r_idle.run_only("Kanata"), r_vkey.rule_toggle_queued],
         "explanation": "Narrow: (R-VK-SINGLE) FakeKeyAction is interpreted only in handle_fakekey_action, which every trigger path "
                        "(key press, key release, on-idle, TCP) calls, and each of press/release/tap/toggle produces layout events; "
                        "(R-COORD) toggle's 'is it pressed' predicate covers exactly the State variants that carry a coordinate; "
